@@ -1,5 +1,5 @@
 (* C06 — Every decoded statement is a well-formed RDF triple or quad. *)
-From RK Require Import Base NQ NQTotal.
+From RK Require Import Base NQ NQProofs NQTotal NQRoundTrip NQPipe.
 
 (* N-Triples / N-Quads, for every input and every reader ending, including the statements emitted
    before an error: the subject is an absolute IRI or a labelled blank node, the predicate an
@@ -10,6 +10,12 @@ From RK Require Import Base NQ NQTotal.
 Theorem C06_nq_wf : forall nq inp t, Forall (fun s => wf_quad nq (st_quad s)) (fst (decode nq inp t)).
 Proof. exact decode_wf. Qed.
 Print Assumptions C06_nq_wf.
+
+(* stronger: every decoded statement satisfies the hypotheses of the writer round trip (scalar code points, blank node
+   labels and language tags of the grammar), so it can be written and read again unchanged (C18_nt_nq_conversion_preserves) *)
+Theorem C06_nq_rewritable : forall nq inp t, Forall (quad_ok nq) (map st_quad (fst (decode nq inp t))).
+Proof. exact decode_ok. Qed.
+Print Assumptions C06_nq_rewritable.
 
 (* non-vacuity: statements before an error are emitted and are covered by the theorem *)
 Example C06_example :
